@@ -17,9 +17,13 @@ public:
         assert(abs(abs(w) - 1.0) < 2 * eps());
         auto t = abs2(arange(1 - n, max(m, n))) / 2;
         arr_cmplx chirp(t.size());
-        const auto w_a = angle(w);
+        //the chirp phase angle(w) * k^2/2 grows with the square of the length: take the angle, the product
+        //and the reduction to one turn in extended precision, otherwise the rounding of the angle alone
+        //(times k^2/2) dominates the error of the whole transform
+        const long double w_a = std::atan2((long double)(w.im), (long double)(w.re));
+        const long double two_pi = 2 * 3.14159265358979323846264338327950288L;
         for (int i = 0; i < t.size(); ++i) {
-            chirp[i] = expj(w_a * t[i]);
+            chirp[i] = expj(real_t(std::fmod(w_a * (long double)(t[i]), two_pi)));
         }
 
         //TODO: find the nearest well-factorized size (not power of 2)
